@@ -122,7 +122,7 @@ fn cases(rng: &mut Rng, id: usize) -> Vec<Case> {
     // arbitrary card trees: the front-end must answer, whatever it is
     let tree = prog((0..1 + rng.below(3)).map(|_| random_tree(rng, 4)).collect(), vec![func("f1", &["a"], vec![random_tree(rng, 3)])]);
     v.push(dflt("compile-only", tree, false));
-    match id % 14 {
+    match id % 15 {
         0 => {
             let depth = 300 + rng.below(400);
             let mut c = dflt("call-depth", prog(vec![call("r", vec![int(depth as i64)])],
@@ -236,6 +236,16 @@ fn cases(rng: &mut Rng, id: usize) -> Vec<Case> {
             body.push(card(op, operands));
             body.push(setg("after", int(1)));
             v.push(dflt("missing-operands", prog(body, vec![]), true));
+        }
+        13 => {
+            // a recursive walk with a for-each in every frame: sooner or later a loop begins when only a few value-stack slots
+            // are left (the number of padding locals shifts where exactly)
+            let pad = rng.below(10);
+            let mut body: Vec<C> = (0..pad).map(|i| setv(&format!("pad{i}"), int(i as i64))).collect();
+            body.push(card("IfTrue", vec![card("Less", vec![int(0), read("n")]),
+                                          foreach("i", "k", "v", read("items"), block(vec![setg("d", call("walk", vec![card("Sub", vec![read("n"), int(1)])]))]))]));
+            body.push(card("Return", vec![read("n")]));
+            v.push(dflt("foreach-at-stack-limit", prog(vec![setg("items", card("Array", vec![int(1)])), setg("r", call("walk", vec![int(80)]))], vec![func("walk", &["n"], body)]), true));
         }
         10 => {
             let n = 1 + rng.below(64);
